@@ -229,9 +229,9 @@ theorem main_concat_of_single_runs (hkey : KeyDetermines proj f) (o : O) (j : Na
     simp only [CliState.main, hp]
     rw [single_file_run unpackDeb checkRegular checkDeb hkey o _ hinv file]
 
+omit [DecidableEq K'] in
 /-- the once-flag does its job: a second `patch_environment` in the same process is refused, and a Checker created
     before the first one is refused (the two exceptions of lib/check/__init__.py) -/
-omit [DecidableEq K'] in
 theorem patch_environment_once (g : G K' V) (hg : g.patched = true) :
     patchEnvironment g = .error .environmentAlreadyPatched := by
   simp [patchEnvironment, hg]
